@@ -36,6 +36,8 @@ def _sl():
 
 def fnum(q, variant=0):
     """rational [num, den] -> the number a user would pass (int when integral and variant is even)"""
+    if len(q) == 3:                      # <<k, m, 1>>: the irrational radius sqrt(k/m), as numpy gives it
+        return float(np.sqrt(q[0] / q[1]))
     n, d = q
     if d == 1 and variant % 2 == 0:
         return int(n)
@@ -59,8 +61,10 @@ def cfg(mode, *, shapes='SNone', nbshapes='NbSmall', radii='R4', thresholds='T3'
         lines = [x.replace('NbSmall', 'SNone').replace('R4', 'SNone').replace('T3', 'SNone')
                  .replace('BigNone', 'SNone').replace('NsReal', 'SNone') for x in lines]
         lines += ['SPECIFICATION TSpec']
-    elif mode == 'vol':
-        lines += ['INIT VolInit', 'NEXT VolNext'] + [f'INVARIANT {i}' for i in (
+    elif mode == 'walk':
+        lines += ['INIT WalkInit', 'NEXT WalkNext', 'INVARIANT WalkMonotone', 'INVARIANT WalkOk', 'INVARIANT EmitWalk']
+    elif mode in ('vol', 'topo'):
+        lines += [f'INIT {"VolInit" if mode == "vol" else "TopoInit"}', 'NEXT VolNext'] + [f'INVARIANT {i}' for i in (
             'RavelBijective', 'PipelineIsDefinition', 'PrefilterSound', 'SphereSymmetric', 'CentreInOwnSphere',
             'CentresOk', 'ThresholdMonotone', 'RadiusMonotone')]
         if emit:
@@ -165,9 +169,18 @@ def token_data(n_obs, n_vox, seed):
     return perm.reshape(n_obs, n_vox).astype(float), perm
 
 
-def events_for(n_cond, n_rep, variant, seed):
+# (repetitions per condition): balanced 2-5 conditions, single repetitions, unbalanced designs
+EVENT_DESIGNS = [[2, 2, 2], [2, 2], [2, 2, 2, 2], [3, 3, 3, 3, 3], [3, 3, 3], [1, 2, 3], [1, 1, 1, 1], [3, 1, 2, 1]]
+
+
+def design_ok(reps, method):
+    """cross-validated methods need the same number (>= 2) of repetitions of every condition"""
+    return method not in ('crossnobis', 'poisson_cv') or (len(set(reps)) == 1 and reps[0] >= 2)
+
+
+def events_for(n_cond, n_rep, variant, seed, reps=None):
     rng = np.random.default_rng(seed + 17)
-    ev = np.repeat(np.arange(n_cond), n_rep)
+    ev = np.repeat(np.arange(n_cond), n_rep if reps is None else reps)
     if (variant // 3) % 2 == 1:
         ev = ev[rng.permutation(len(ev))]                      # interleaved trials
     lab = [np.array([3, 1, 7, 5, 9, 11])[:n_cond][ev],        # non-contiguous ints, not in sorted order of first use
@@ -189,10 +202,27 @@ def euclid_kernel(data, events, cols):
 
 
 ORDERS = ['ascending', 'reversed', 'shuffled']
+ORDERS_MORE = ORDERS + ['rotated', 'subset', 'interleaved']
+
+
+def permute_centres(n, order, seed):
+    idx = list(range(n))
+    if order == 'reversed':
+        return idx[::-1]
+    if order == 'shuffled':
+        return [int(x) for x in np.random.default_rng(seed + 3).permutation(n)]
+    if order == 'rotated':
+        k = n // 3 + 1
+        return idx[k:] + idx[:k]
+    if order == 'subset':            # a caller may ask for some of the centres only
+        return [int(x) for x in np.random.default_rng(seed + 5).permutation(n)][:max(1, n // 2)]
+    if order == 'interleaved':
+        return idx[::2] + idx[1::2]
+    return idx
 
 
 def check_rdms(shape, centres, neigh, method, variant=0, seed=0, n_cond=3, n_rep=2, record_inputs=True,
-               dtype='float64', order='ascending'):
+               dtype='float64', order='ascending', reps=None):
     """get_searchlight_RDMs(data, centres, neighbours, events, method) against a direct calc_rdm on the
     columns of every searchlight.  ``dtype`` is the dtype of the data matrix handed over (the tokens are
     integers, so an integer matrix is natural); the direct computation always uses a float64 copy of the same
@@ -203,14 +233,15 @@ def check_rdms(shape, centres, neigh, method, variant=0, seed=0, n_cond=3, n_rep
     # the caller may pass any subset / order of centres with the matching neighbour lists: RDM i and
     # voxel_index[i] must belong to the i-th centre AS PASSED
     if order != 'ascending' and len(centres) > 1:
-        idx = list(range(len(centres)))[::-1] if order == 'reversed' else \
-            [int(x) for x in np.random.default_rng(seed + 3).permutation(len(centres))]
+        idx = permute_centres(len(centres), order, seed)
         centres = [centres[j] for j in idx]
         neigh = [neigh[j] for j in idx]
     n_vox = int(np.prod(shape))
-    n_obs = n_cond * n_rep
+    if reps is not None:
+        n_cond = len(reps)
+    n_obs = n_cond * n_rep if reps is None else int(sum(reps))
     data, perm = token_data(n_obs, n_vox, seed)
-    events = events_for(n_cond, n_rep, variant, seed)
+    events = events_for(n_cond, n_rep, variant, seed, reps)
     if dtype == 'float64' and (method == 'correlation' or method == 'mahalanobis'):
         data = data / 7.0
     typed = data.astype(dtype)                 # integer tokens: exact in every dtype used (max 6 * n_vox < 32767)
@@ -223,10 +254,12 @@ def check_rdms(shape, centres, neigh, method, variant=0, seed=0, n_cond=3, n_rep
         data_in, ev_in = data.tolist(), list(events.tolist())
     else:
         data_in, ev_in = typed, events
-    # same float computation on float64 / integer data; float32 input may legitimately be averaged in float32
-    rtol = 1e-6 if dtype == 'float32' else 1e-12
+    # same float computation on float64 / integer data; float32 input is legitimately averaged in float32 (means of
+    # thirds are rounded to 6e-8, and differences of close means cancel): tolerance relative to the largest entry
+    rtol = 1e-5 if dtype == 'float32' else 1e-12
+    atol_rel = 1e-6 if dtype == 'float32' else 0.0
     case = {'shape': list(shape), 'n_centres': len(centres), 'method': method, 'variant': variant, 'seed': seed,
-            'events': events.tolist(), 'data_dtype': dtype, 'centre_order': order}
+            'events': events.tolist(), 'data_dtype': dtype, 'centre_order': order, 'reps': reps}
     seen = []
     real_calc = sl.calc_rdm
 
@@ -275,7 +308,8 @@ def check_rdms(shape, centres, neigh, method, variant=0, seed=0, n_cond=3, n_rep
     for i in range(len(centres)):
         ds = Dataset(data[:, nb_in[i]], obs_descriptors={'events': events})
         direct = rsatoolbox.rdm.calc_rdm(ds, method=method, descriptor='events').dissimilarities[0]
-        if not np.allclose(diss[i], direct, rtol=rtol, atol=1e-12, equal_nan=True):
+        scale = float(np.nanmax(np.abs(direct))) if np.isfinite(direct).any() else 0.0
+        if not np.allclose(diss[i], direct, rtol=rtol, atol=1e-12 + atol_rel * scale, equal_nan=True):
             bad.append((f'c/rdms/value/{"chunked" if len(centres) > 1000 else "unchunked"}',
                         'RDM reported for a centre differs from calc_rdm on (a float64 copy of) the columns of its searchlight',
                         {**case, 'position': i, 'centre': int(centres[i]), 'columns': list(map(int, neigh[i])),
@@ -283,7 +317,8 @@ def check_rdms(shape, centres, neigh, method, variant=0, seed=0, n_cond=3, n_rep
             break
         if method == 'euclidean':
             k = euclid_kernel(data, events, nb_in[i])
-            if not np.allclose(diss[i], k, rtol=1e-9, atol=1e-9):
+            # the code's formula |a|^2 + |b|^2 - 2 a.b cancels: error ~ 1e-16 * (largest entry), not of the entry itself
+            if not np.allclose(diss[i], k, rtol=max(rtol, 1e-9), atol=1e-9 + max(atol_rel, 1e-10) * scale):
                 bad.append(('c/rdms/value/kernel', 'euclidean searchlight RDM differs from the textbook formula '
                             'on condition means in sorted label order',
                             {**case, 'position': i, 'centre': int(centres[i]), 'got': diss[i].tolist(), 'kernel': k.tolist()}))
@@ -296,6 +331,8 @@ def theta_sig(theta):
     """a hashable signature of the theta argument an evaluation function received"""
     if theta is None:
         return None
+    if isinstance(theta, np.ndarray):
+        return np.asarray(theta, dtype=float).round(12).tolist()
     return [np.asarray(t, dtype=float).round(12).tolist() if t is not None else None for t in theta]
 
 
@@ -317,7 +354,7 @@ def worker_env():
                                                [p for p in os.environ.get('PYTHONPATH', '').split(os.pathsep) if p])
 
 
-def check_eval(sl_rdms, n_jobs_list=(1, 2, 4), method='corr'):
+def check_eval(sl_rdms, n_jobs_list=(1, 2, 4), method='corr', model_types=False):
     """evaluate_models_searchlight: one result per centre, in centre order, for every n_jobs - result i being the
     evaluation of centre i's RDM with the models, method and theta that were passed.  Model sets: fixed models
     (theta None), parametrised models (ModelWeighted) with theta None and with an EXPLICIT theta."""
@@ -341,6 +378,16 @@ def check_eval(sl_rdms, n_jobs_list=(1, 2, 4), method='corr'):
     # (evaluation function, models, theta): direct per-centre reference computed WITHOUT the function under test
     setups = [('token', token_eval, weighted, theta), ('eval_fixed/weighted/theta', eval_fixed, weighted, theta),
               ('eval_fixed/weighted/none', eval_fixed, weighted, None), ('eval_fixed/fixed/none', eval_fixed, fixed, None)]
+    if model_types:
+        # every model class of rsatoolbox.model, a single model instead of a list, a mixed list
+        from rsatoolbox.model import ModelSelect, ModelInterpolate
+        sel = ModelSelect('s', rng.random((3, n_pair)))
+        itp = ModelInterpolate('i', rng.random((3, n_pair)))
+        setups += [('eval_fixed/select/theta', eval_fixed, [sel], [2]),
+                   ('eval_fixed/interpolate/theta', eval_fixed, [itp], [np.array([0.0, 0.3, 0.7])]),
+                   ('eval_fixed/single-model/theta', eval_fixed, weighted[0], [theta[0]]),
+                   ('eval_fixed/mixed/theta', eval_fixed, [fixed[0], weighted[1], sel, itp],
+                    [None, theta[1], 1, np.array([0.6, 0.4, 0.0])])]
     refs = {name: [eval_fixed(mods, sl_rdms[i], theta=th, method=method).evaluations for i in range(n)]
             for name, fn, mods, th in setups if fn is eval_fixed}
     if all(np.allclose(a, b) for a, b in zip(refs['eval_fixed/weighted/theta'], refs['eval_fixed/weighted/none'])):
@@ -386,7 +433,8 @@ def check_eval(sl_rdms, n_jobs_list=(1, 2, 4), method='corr'):
 
 
 # ------------------------------------------------------------------ impl -> spec: recorded executions
-RAD_POOL = [[1, 2], [1, 1], [5, 4], [7, 5], [3, 2], [17, 10], [7, 4], [2, 1], [9, 4], [5, 2], [29, 10], [3, 1]]
+RAD_POOL = [[1, 2], [1, 1], [5, 4], [7, 5], [3, 2], [17, 10], [7, 4], [2, 1], [9, 4], [5, 2], [29, 10], [3, 1],
+            [2, 1, 1], [3, 1, 1], [5, 1, 1], [6, 1, 1]]          # [k, m, 1]: the irrational radius sqrt(k/m)
 THR_POOL = [[0, 1], [1, 4], [1, 3], [1, 2], [3, 5], [2, 3], [7, 10], [3, 4], [9, 10], [1, 1]]
 
 
@@ -413,7 +461,10 @@ def record_trace(seed, max_vox=140):
         variant = int(rng.integers(20))
         st, centres, neigh = run_volume(shape, lin, rad, thr, variant)
         if st == 'raise':
+            # recorded too: the trace specification accepts a raise only when no centre qualifies
             unsupported += 1
+            events.append({'op': 'volraise', 'shape': list(shape), 'mask': lin, 'rad': rad, 'thr': thr,
+                           'error': type(centres).__name__})
             continue
         events.append({'op': 'vol', 'shape': list(shape), 'mask': lin, 'rad': rad, 'thr': thr,
                        'centres': [int(x) for x in np.asarray(centres).ravel()],
@@ -421,7 +472,25 @@ def record_trace(seed, max_vox=140):
     for _ in range(3):
         rad = RAD_POOL[int(rng.integers(len(RAD_POOL)))]
         centre = [int(rng.integers(s)) for s in shape]
-        out = sl._get_searchlight_neighbors(np.ones(shape, dtype=bool), tuple(centre), rad[0] / rad[1])
+        out = sl._get_searchlight_neighbors(np.ones(shape, dtype=bool), tuple(centre), fnum(rad, 1))
         events.append({'op': 'nb', 'shape': list(shape), 'centre': centre, 'rad': rad,
                        'out': [[int(a), int(b), int(c)] for a, b, c in zip(*out)]})
     return events, unsupported
+
+
+def check_error_branches():
+    """get_volume_searchlight documents a 3-dimensional mask (assert)"""
+    sl = _sl()
+    bad = []
+    for m in (np.ones((3, 3)), np.ones((2, 2, 2, 2))):
+        try:
+            with quiet():
+                sl.get_volume_searchlight(m, radius=1, threshold=1.0)
+            bad.append(('b/volume/accepts-non-3d-mask', 'get_volume_searchlight accepts a mask that is not 3-dimensional',
+                        {'ndim': m.ndim}))
+        except AssertionError:
+            pass
+        except Exception as e:
+            bad.append((f'b/volume/non-3d-mask/{type(e).__name__}', f'non-3-d mask fails with {e!r}, not the documented '
+                        'assertion', {'ndim': m.ndim}))
+    return bad
